@@ -162,15 +162,19 @@ pub struct Window {
     /// everything in `[0, durable_end)` is on disk for certain (records up to and including
     /// the last completed non-eventual `sync_data` of the prefix)
     pub durable_end: usize,
-    /// log indices (all `< p`, `>= durable_end`) of the droppable records (writes and
-    /// `set_len`s) in issue order
+    /// end of the prefix (the crash point `p`)
+    pub end: usize,
+    /// log indices (all `< p`, `>= durable_end`) of the droppable records in issue order:
+    /// the writes, and the `set_len`s too when `set_len_droppable`
     pub items: Vec<usize>,
     /// for each item, the number of `sync_data(eventual=true)` barriers between `durable_end`
     /// and the item: an item of segment k may only survive if every item of segments < k did
     pub segment: Vec<u32>,
 }
 
-pub fn window(log: &[Rec], p: usize) -> Window {
+/// `set_len_droppable = false` (the default of the checks): a `set_len` takes effect at once
+/// and durably, only whole writes can be lost — the quantifier of C22.
+pub fn window(log: &[Rec], p: usize, set_len_droppable: bool) -> Window {
     let mut durable_end = 0;
     for (i, r) in log[..p].iter().enumerate() {
         if matches!(r, Rec::Sync { eventual: false }) {
@@ -183,6 +187,7 @@ pub fn window(log: &[Rec], p: usize) -> Window {
     for (i, r) in log[..p].iter().enumerate().skip(durable_end) {
         match r {
             Rec::Sync { .. } => seg += 1,
+            Rec::SetLen(_) if !set_len_droppable => {}
             _ => {
                 items.push(i);
                 segment.push(seg);
@@ -191,6 +196,7 @@ pub fn window(log: &[Rec], p: usize) -> Window {
     }
     Window {
         durable_end,
+        end: p,
         items,
         segment,
     }
@@ -246,17 +252,30 @@ impl Window {
     }
 }
 
-/// The image a crash leaves: `base` (the image before log index 0) + the durable records +
-/// the surviving subset of the window, in issue order.
-pub fn materialise(base: &[u8], log: &[Rec], w: &Window, mask: u64) -> Vec<u8> {
+/// The image a crash leaves: `durable` (base + the records before `w.durable_end`) + the
+/// surviving subset of the window, in issue order; records of the window that are not
+/// droppable items (`set_len` unless droppable) always apply.
+pub fn materialise(durable: &[u8], log: &[Rec], w: &Window, mask: u64) -> Vec<u8> {
+    let mut img = durable.to_vec();
+    let mut item = 0usize;
+    for idx in w.durable_end..w.end {
+        if item < w.items.len() && w.items[item] == idx {
+            if mask >> item & 1 == 1 {
+                apply(&mut img, &log[idx]);
+            }
+            item += 1;
+        } else {
+            apply(&mut img, &log[idx]);
+        }
+    }
+    img
+}
+
+/// base + every record before `w.durable_end`
+pub fn durable_image(base: &[u8], log: &[Rec], w: &Window) -> Vec<u8> {
     let mut img = base.to_vec();
     for r in &log[..w.durable_end] {
         apply(&mut img, r);
-    }
-    for (i, idx) in w.items.iter().enumerate() {
-        if mask >> i & 1 == 1 {
-            apply(&mut img, &log[*idx]);
-        }
     }
     img
 }
